@@ -108,6 +108,30 @@ def rich_ruleset(rng, path):
     return {'terminals': terminals, 'base': base, 'omen_prob': omen_prob}
 
 
+def tie_group_ruleset(rng, path):
+    """groups of several equally probable words / masks / digits: the cut of --limit / --size can fall
+    anywhere inside a tie group, and the group sits in a non-last slot (alpha word followed by its mask)"""
+    words3 = ['cat', 'dog', 'fox', 'owl', 'pig', 'rat', 'bat']
+    words4 = ['pass', 'word', 'love', 'blue', 'king']
+    rng.shuffle(words3)
+    rng.shuffle(words4)
+    k3 = rng.randint(3, 6)
+    terminals = {
+        'A3': [(words3[0], 0.4)] + [(w, 0.1) for w in words3[1:1 + k3]],
+        'C3': rng.choice([[('LLL', 0.6), ('ULL', 0.2), ('UUU', 0.2)], [('LLL', 1 / 3), ('ULL', 1 / 3), ('LLU', 1 / 3)], [('LLL', 1.0)]]),
+        'A4': [(w, 0.25) for w in words4[:rng.randint(3, 4)]],
+        'C4': rng.choice([[('LLLL', 0.5), ('ULLL', 0.5)], [('LLLL', 1.0)]]),
+        'D2': [('12', 0.25), ('99', 0.25), ('11', 0.25), ('07', 0.25)],
+        'D1': [('1', 0.5), ('2', 0.3), ('3', 0.2)],
+    }
+    base = [('A3D1', 0.3), ('A3', 0.25), ('A4', 0.2), ('D2', 0.15), ('A4D2', 0.1)]
+    rng.shuffle(base)
+    base.sort(key=lambda x: -x[1])
+    prince = [('A3', 0.5), ('A4', 0.3), ('D2', 0.2)]
+    rulesets.write_ruleset(path, terminals, base, prince=prince)
+    return {'terminals': terminals, 'base': base, 'prince': prince, 'kind': 'tie groups'}
+
+
 # --------------------------------------------------------------------------
 def all_pts(pcfg):
     """every pre-terminal of the loaded ruleset, enumerated independently of the queue"""
